@@ -1599,6 +1599,10 @@ def external_call(E, name, ext, e, recv=None, args=None, kwargs=None):
         gname, gexpr = ext["ghost_set"]
         st.vars[gname] = E.spec_value_env(gexpr, env)
         return NONE
+    if ext.get("new_dict"):
+        # a constructor of an EMPTY mapping (collections.OrderedDict(), dict subclass): a freshly allocated dict, exactly like `{}` / dict()
+        kty_, vty_ = ext["new_dict"]
+        return new_dict(E, parse_type(kty_), parse_type(vty_))
     if ext.get("uf"):
         zs = []
         for a in args:
@@ -2195,6 +2199,8 @@ def spec_quant(kind, sort=I, vty=None):
 
 def spec_implies(E, e):
     a = E.truthy(E.ev(e.args[0]))
+    if z3.is_false(z3.simplify(a)):
+        return vbool(z3.BoolVal(True))  # the conclusion need not even be well-typed under a false premise (x is None on this path)
     b = E.truthy(E.ev(e.args[1]))
     return vbool(z3.Implies(a, b))
 
